@@ -85,8 +85,10 @@ class Panoptica_Aggregator:
         # from here on always work on the normalised path (with extension)
         output_file = Path(out_file_path)
 
+        # one buffer file per output file: aggregators writing to different files in the
+        # same directory must not share (or delete) each other's list of claimed subjects
         out_buffer_file: Path = Path(out_file_path).parent.joinpath(
-            "panoptica_aggregator_tmp.tsv"
+            Path(out_file_path).stem + "_panoptica_aggregator_tmp.tsv"
         )
         self.__output_buffer_file = out_buffer_file
 
